@@ -997,7 +997,17 @@ func (c *Ctx) checkC01Routine(sites []labelSite) {
 				a := ci.Common().Args
 				okSeed := len(a) >= 2 && pathOf(a[0]) == argName(sel, 0)
 				// the subnets argument went through the family filter, which consumed the version-specific subnet choice
-				okFlow := len(a) >= 2 && (strings.Contains(pathOf(a[1]), "V4Only(") || strings.Contains(pathOf(a[1]), "V6Only(")) && strings.Contains(pathOf(a[1]), "subnetsByVersion("+argName(sel, 0)+", "+argName(sel, 2)+",")
+				okFlow := false
+				if len(a) >= 2 {
+					leaves, okL := familyFilterLeaves(sel, a[1])
+					okFlow = okL
+					for _, l := range leaves {
+						la := argsOf(&l.call.Call)
+						if len(la) < 1 || !strings.Contains(pathOf(la[0]), "subnetsByVersion("+argName(sel, 0)+", "+argName(sel, 2)+",") {
+							okFlow = false
+						}
+					}
+				}
 				r.Check(g && okSeed && okFlow, "C01.3", "Select: "+d.callee+" exactly for "+d.what+", on the filtered group chosen for this seed", ci.Pos(), fnName(sel), "guards "+fmt.Sprint(d.atoms)+"; args "+firstN(pathOf(a[1]), 80),
 					"the selector for clients with "+d.what+" is not called under exactly that version test with (seed, family-filtered subnets chosen by subnetsByVersion(seed, clientLibVer, …)): those clients compute a different phantom than the station")
 			}
